@@ -10,14 +10,14 @@ CHECKS = {
     "C01": dict(
         category="model_checking",
         technique="explicit-state exploration of the real lot matcher over the prefix tree of histories (bounded exhaustive, deviation-bounded), order monitor + reference matcher",
-        text="Every valid single-asset history over a 14-symbol alphabet up to depth 4 (thorough 5) is executed from scratch through compute_tax under each of fifo/lifo/hifo/lofo, every two-year (thorough: three-year) method schedule, with 1 (2) deviations in disposal type / UTC offset / amount scale and with sheet order reversed; on every node a monitor checks that no strictly better-ranked lot with balance was passed over, and tie-free traces must equal the reference matcher's pairing. This is the deepest level the family offers for a sequential matcher: all interleavings within the bound, none sampled. Also: a purchase carrying a large fiat fee at every purchase position (fee-inclusive unit cost ranks differently from spot price) and same-instant events falling under different methods of a schedule. A front-end phase (spreadsheet -> parse_ods -> compute_tax, both sheet orders) runs the tree over an alphabet with acquisitions paying a crypto fee (the parser's fee-only disposals take lots in method order too). Further phases: steps of 250 ms with reversed sheet order; every two- and three-year schedule x every order of the [accounting_methods] lines written to a config file and read back by the real Configuration.",
+        text="Every valid single-asset history over a 14-symbol alphabet up to depth 4 (thorough 5) is executed from scratch through compute_tax under each of fifo/lifo/hifo/lofo, every two-year (thorough: three-year) method schedule, with 1 (2) deviations in disposal type / UTC offset / amount scale and with sheet order reversed; on every node a monitor checks that no strictly better-ranked lot with balance was passed over, and tie-free traces must equal the reference matcher's pairing. This is the deepest level the family offers for a sequential matcher: all interleavings within the bound, none sampled. Also: a purchase carrying a large fiat fee at every purchase position (fee-inclusive unit cost ranks differently from spot price) and same-instant events falling under different methods of a schedule. A front-end phase (spreadsheet -> parse_ods -> compute_tax, both sheet orders) runs the tree over an alphabet with acquisitions paying a crypto fee (the parser's fee-only disposals take lots in method order too). Further phases: steps of 250 ms with reversed sheet order; every two- and three-year schedule x every order of the [accounting_methods] lines written to a config file and read back by the real Configuration. The 34 asset sheets of the 9 inputs bundled with RP2 are judged by the same monitor under 4 methods x 12 two-year schedules.",
         note="Trusts the reference model in rp2verif/models/lots.py (40 lines, exact rationals); histories outside the alphabet or deeper than the completed depth are not covered; ties on the primary key are deliberately not ordered.",
         design="3/C01",
     ),
     "C02": dict(
         category="model_checking",
         technique="explicit-state exploration of the real lot matcher over valid and over-spending histories, cumulative-balance reference model, exact conservation sums",
-        text="Every history (valid or over-spending, S(ALL) enabled at every node) up to depth 4 (thorough 5) x every method / two-year schedule x amount scales down to 1e-11: the run must fail iff some instant's cumulative disposals exceed cumulative acquisitions; on success per-disposal sums equal amount+fee exactly, no lot is overspent or later than its event, and a sold-out holding leaves every lot exactly exhausted. Also: a fee-bearing transfer inside one account, and every history re-run with a from-date on its last day (acceptance and rejection must not depend on the window). A front-end phase (spreadsheet -> parse_ods -> compute_tax, both sheet orders) runs valid and over-spending histories over an alphabet with purchases and income paying a crypto fee (the parser's fee-only disposals must be covered and conserved like any other). Also steps of 250 ms with reversed sheet order.",
+        text="Every history (valid or over-spending, S(ALL) enabled at every node) up to depth 4 (thorough 5) x every method / two-year schedule x amount scales down to 1e-11: the run must fail iff some instant's cumulative disposals exceed cumulative acquisitions; on success per-disposal sums equal amount+fee exactly, no lot is overspent or later than its event, and a sold-out holding leaves every lot exactly exhausted. Also: a fee-bearing transfer inside one account, and every history re-run with a from-date on its last day (acceptance and rejection must not depend on the window). A front-end phase (spreadsheet -> parse_ods -> compute_tax, both sheet orders) runs valid and over-spending histories over an alphabet with purchases and income paying a crypto fee (the parser's fee-only disposals must be covered and conserved like any other). Also steps of 250 ms with reversed sheet order. The 34 asset sheets of the 9 inputs bundled with RP2 are judged by the same oracle under 4 methods x 12 two-year schedules.",
         note="Trusts the cumulative-balance model; over-spent nodes are extended one level only (every longer extension contains the same uncovered disposal).",
         design="3/C02",
     ),
@@ -38,21 +38,21 @@ CHECKS = {
     "C05": dict(
         category="exploration",
         technique="exhaustive boundary grid (instants x deltas x UTC offsets x country configurations) on the real compute_tax, epoch-second oracle",
-        text="6 acquisition instants (leap day, year end) x 9 deltas around the threshold (P-1s, P, P+1s, +-12h, +-1d, 0, 2P) x 16 UTC-offset pairs x 10 country configurations (us, es, jp, ie, generic with 6 LONG_TERM_CAPITAL_GAINS values), plus a sale straddling the threshold over two lots and income events; the LONG/SHORT flag of every fraction and the split of the yearly summary are compared with floor(elapsed seconds / 86400) >= P. The LONG/SHORT column of rp2_full_report.ods and tax_report_us.ods is read back for disposals, transfer fees and income on both sides of the threshold.",
+        text="6 acquisition instants (leap day, year end) x 9 deltas around the threshold (P-1s, P, P+1s, +-12h, +-1d, 0, 2P) x 16 UTC-offset pairs x 10 country configurations (us, es, jp, ie, generic with 6 LONG_TERM_CAPITAL_GAINS values), plus a sale straddling the threshold over two lots and income events; the LONG/SHORT flag of every fraction and the split of the yearly summary are compared with floor(elapsed seconds / 86400) >= P. The LONG/SHORT column of rp2_full_report.ods and tax_report_us.ods is read back for disposals, transfer fees and income on both sides of the threshold. Thorough: 54 acquisition instants (first and last second of every month of 2019-2020), 18 deltas from 250 ms to a day on both sides, 64 offset pairs (half-hour offsets included), 15 country configurations, the disposal rotating over sale / gift / fee / transfer fee (about 1 M cases).",
         note="Only the listed thresholds and instants; timedelta arithmetic of the oracle is on epoch seconds.",
         design="3/C05",
     ),
     "C06": dict(
         category="exploration",
         technique="bounded-exhaustive prefix tree of multi-year histories x every window of interest on the real pipeline, regrouping oracle in exact rationals",
-        text="Every multi-year history (steps +1d/+200d/+365d, 8 symbols) up to depth 3 under fifo/lifo/hifo and depth 4 under hifo (thorough: depth 4 x 4 methods, depth 5 x 2) is run once unfiltered and once per to-date / from-date of interest (on and the day before every transaction, year ends, year starts, mid-year); the yearly list must have exactly the keys of the detail fractions, once, with equal sums of all four figures, and grand totals equal to the detail table. Also: timestamps at -05:00 on New Year's Eve (own year != UTC year) and 2-hour steps across two midnights with one transaction written in another UTC offset (own dates not monotonic along the instants).",
+        text="Every multi-year history (steps +1d/+200d/+365d, 8 symbols) up to depth 3 under fifo/lifo/hifo and depth 4 under hifo (thorough: depth 4 x 4 methods, depth 5 x 2) is run once unfiltered and once per to-date / from-date of interest (on and the day before every transaction, year ends, year starts, mid-year); the yearly list must have exactly the keys of the detail fractions, once, with equal sums of all four figures, and grand totals equal to the detail table. Also: timestamps at -05:00 on New Year's Eve (own year != UTC year) and 2-hour steps across two midnights with one transaction written in another UTC offset (own dates not monotonic along the instants). The 34 asset sheets of the 9 inputs bundled with RP2 x 4 methods x every to-/from-date of interest are judged too.",
         note="In the mixed-offset phase the summary is compared with the detail table of the same run; the long/short flag of a fraction is taken from RP2 (C05 decides it).",
         design="3/C06",
     ),
     "C07": dict(
         category="exploration",
         technique="bounded-exhaustive 3-account prefix tree on the real pipeline x to-dates x -n, reference account replay + lot reconciliation",
-        text="Every history up to depth 3 (thorough 4) over 30 symbols on 3 accounts (2 exchanges x 2 holders; buys, income, sales, transfers with/without fee between all ordered pairs and to self) x fifo/hifo x -n off/on x every to-date: each account's acquired / sent / received / final equals the reference replay, every touched account appears once, and the sum of final balances equals acquired lots minus consumed fractions. Also: amounts x 1e-6 (transfer fees worth far less than a cent), and the balance tables of rp2_full_report read back, incl. same-instant purchases paying crypto fees without unique ids. Also: every timestamp at -05:00 / +09:00 (own date != UTC date) x every to-date.",
+        text="Every history up to depth 3 (thorough 4) over 30 symbols on 3 accounts (2 exchanges x 2 holders; buys, income, sales, transfers with/without fee between all ordered pairs and to self) x fifo/hifo x -n off/on x every to-date: each account's acquired / sent / received / final equals the reference replay, every touched account appears once, and the sum of final balances equals acquired lots minus consumed fractions. Also: amounts x 1e-6 (transfer fees worth far less than a cent), and the balance tables of rp2_full_report read back, incl. same-instant purchases paying crypto fees without unique ids. Also: every timestamp at -05:00 / +09:00 (own date != UTC date) x every to-date. The 34 asset sheets of the 9 inputs bundled with RP2 (4 exchanges x 2 holders) x every to-date x -n off / on are judged too.",
         note="Per-holder totals exist only in the report and are read back in C13.",
         design="3/C07",
     ),
@@ -66,14 +66,14 @@ CHECKS = {
     "C09": dict(
         category="model_checking",
         technique="explicit-state exploration of every (node, cut) edge of the history prefix tree on the real pipeline; differential oracle: run of the whole history vs run of the truncated history vs run limited by to-date",
-        text="Every valid history up to depth 4 (thorough 5) over an alphabet biased to continuations the method would prefer (all three price ranks, newer lots, income lots, partial and spanning sales, transfer fee) x fifo/lifo/hifo/lofo and the 12 two-year schedules, steps same-instant / +1h / +1d / +1y, both sheet orders: for every cut between two distinct timestamps the figures of all events at or before the cut (pairing, amounts, proceeds, cost, gain, long/short, k/n, closed years) equal those of the truncated history, and the run limited by to-date equals the truncated run on the complete canonical dump (rows, running sums, sold %, counts, yearly lines, balances, average price). Checked on every edge, it holds for every continuation within the bound by transitivity. Also: two assets computed in one run with one engine (asset B1 grows in 2020+, asset B2 lies wholly in 2019): B2's complete dump must equal the run truncated at 2019-12-31.",
+        text="Every valid history up to depth 4 (thorough 5) over an alphabet biased to continuations the method would prefer (all three price ranks, newer lots, income lots, partial and spanning sales, transfer fee) x fifo/lifo/hifo/lofo and the 12 two-year schedules, steps same-instant / +1h / +1d / +1y, both sheet orders: for every cut between two distinct timestamps the figures of all events at or before the cut (pairing, amounts, proceeds, cost, gain, long/short, k/n, closed years) equal those of the truncated history, and the run limited by to-date equals the truncated run on the complete canonical dump (rows, running sums, sold %, counts, yearly lines, balances, average price). Checked on every edge, it holds for every continuation within the bound by transitivity. Also: two assets computed in one run with one engine (asset B1 grows in 2020+, asset B2 lies wholly in 2019): B2's complete dump must equal the run truncated at 2019-12-31. Every cut of the 34 asset sheets of the 9 inputs bundled with RP2 x 4 methods is judged too.",
         note="Differential: both sides are the real code, so a defect that affects both runs identically is invisible here (C01/C02 judge absolute correctness). Single UTC offset.",
         design="3/C09",
     ),
     "C10": dict(
         category="exploration",
         technique="bounded-exhaustive history tree x every from<=to pair over the dates of interest on the real pipeline; differential oracle against the unfiltered and the to-date-only run",
-        text="Every valid multi-year history up to depth 3 (thorough 4) over 7 symbols x fifo/hifo (thorough: 4 methods) x EVERY window from <= to (either bound may be absent) over each transaction date +-1 day, Jan 1 / Jul 1 / Dec 31 of touched years and dates outside the history (150-250 windows per history), also with every timestamp in +09:00 so that own calendar date != UTC date: rows and fractions shown are exactly those dated in the window, every figure equals the unfiltered run, counts / balances / average price equal the to-date-only run, yearly lines are the to-date-only lines of years >= from-year. Fraction counts k/n are also recomputed from the unfiltered run's own fraction list cut at the to-date; an [accounting_methods] schedule x from-dates goes through the real CLI.",
+        text="Every valid multi-year history up to depth 3 (thorough 4) over 7 symbols x fifo/hifo (thorough: 4 methods) x EVERY window from <= to (either bound may be absent) over each transaction date +-1 day, Jan 1 / Jul 1 / Dec 31 of touched years and dates outside the history (150-250 windows per history), also with every timestamp in +09:00 so that own calendar date != UTC date: rows and fractions shown are exactly those dated in the window, every figure equals the unfiltered run, counts / balances / average price equal the to-date-only run, yearly lines are the to-date-only lines of years >= from-year. Fraction counts k/n are also recomputed from the unfiltered run's own fraction list cut at the to-date; an [accounting_methods] schedule x from-dates goes through the real CLI. The 34 asset sheets of the 9 inputs bundled with RP2 x every window over their transaction dates and year bounds x fifo / hifo are judged too.",
         note="Differential against the real code's own unfiltered run; the sold-% column is per-window by definition and not judged.",
         design="3/C10",
     ),
@@ -94,28 +94,28 @@ CHECKS = {
     "C13": dict(
         category="exploration",
         technique="bounded-exhaustive history tree x second asset x windows x methods x country/language through spreadsheet -> parse_ods -> compute_tax -> the real rp2_full_report plugin in a forked child; .ods read back (direct content.xml reader) and compared cell by cell",
-        text="Asset B1 ranges over every valid history up to depth 3 over a 9-symbol multi-year alphabet (incl. a purchase with crypto fee, FEE-typed and gift disposals, fee-bearing transfer), asset B2 over fixed histories with colliding spreadsheet row numbers, unique ids and notes on all rows, sheet order different from time order; x 10 windows (none / from / to / both, empty and one-day windows) x fifo / hifo / fifo->hifo schedule x 6 country-language pairs (slice). Each case runs the real generator once; the written file is read back and every In/Out/Intra row, running sum and sold % (also recomputed independently from the input rows), summary line, balance and holder total, average price, detail row (amount, proceeds, cost, gain, LONG/SHORT, k/n labels, lot figures), the Summary sheet and the Legend (method(s), filters) is compared with the ComputedData the generator was given. Balances, the rows shown and the taxable events of the window are also recomputed from the input rows alone (reference account replay, own calendar dates); depth <= 2 also with every timestamp at +09:00 / -05:00; the second asset includes a transfer inside one account.",
+        text="Asset B1 ranges over every valid history up to depth 3 over a 9-symbol multi-year alphabet (incl. a purchase with crypto fee, FEE-typed and gift disposals, fee-bearing transfer), asset B2 over fixed histories with colliding spreadsheet row numbers, unique ids and notes on all rows, sheet order different from time order; x 10 windows (none / from / to / both, empty and one-day windows) x fifo / hifo / fifo->hifo schedule x 6 country-language pairs (slice). Each case runs the real generator once; the written file is read back and every In/Out/Intra row, running sum and sold % (also recomputed independently from the input rows), summary line, balance and holder total, average price, detail row (amount, proceeds, cost, gain, LONG/SHORT, k/n labels, lot figures), the Summary sheet and the Legend (method(s), filters) is compared with the ComputedData the generator was given. Balances, the rows shown and the taxable events of the window are also recomputed from the input rows alone (reference account replay, own calendar dates); depth <= 2 also with every timestamp at +09:00 / -05:00; the second asset includes a transfer inside one account. The data of the 9 inputs bundled with RP2 (all asset sheets of a file in one run, up to 41 transactions per sheet, 4 exchanges x 2 holders, exchange-supplied fiat values) x methods x 10 date windows is read back the same way.",
         note="Plain cells are doubles (1e-11 relative); the correctness of the ComputedData itself is C01-C10's business. Tables are located by their translated titles, not by recomputing RP2's row arithmetic.",
         design="3/C13",
     ),
     "C19": dict(
         category="exploration",
         technique="same generator seam as C13 x every date window; every HYPERLINK formula is followed into the sheet and row it names and the unique id found there is compared",
-        text="Two assets sharing spreadsheet row numbers (their row orders run in opposite directions so that late rows of one collide with early rows of the other), unique ids on all rows; B1 = every valid history up to depth 3; depth <= 2: every from-only / to-only window over the dates of interest and from+to pairs (thorough: all pairs, 3 second assets, both row orders), depth 3: from-dates on / after each transaction. For every taxable-event and acquired-lot cell of '<asset> Tax': the link names '<asset> In-Out' and the row holding the same unique id, or the cell carries no link when the window hides the transaction; every Summary cell links to the first shown detail row of that year in that asset's Tax sheet (or carries no link when none is shown).",
+        text="Two assets sharing spreadsheet row numbers (their row orders run in opposite directions so that late rows of one collide with early rows of the other), unique ids on all rows; B1 = every valid history up to depth 3; depth <= 2: every from-only / to-only window over the dates of interest and from+to pairs (thorough: all pairs, 3 second assets, both row orders), depth 3: from-dates on / after each transaction. For every taxable-event and acquired-lot cell of '<asset> Tax': the link names '<asset> In-Out' and the row holding the same unique id, or the cell carries no link when the window hides the transaction; every Summary cell links to the first shown detail row of that year in that asset's Tax sheet (or carries no link when none is shown). The data of the 9 inputs bundled with RP2 (all asset sheets of a file in one run, up to 41 transactions per sheet, 4 exchanges x 2 holders, exchange-supplied fiat values) x methods x 10 date windows is read back the same way.",
         note="Identity of a transaction in the report = the unique id printed on its In-Out row.",
         design="3/C19",
     ),
     "C20": dict(
         category="exploration",
         technique="exhaustive enumeration of year -> content assignments x second asset x row order x language through spreadsheet -> parse_ods -> compute_tax -> the real tax_report_jp plugin in a forked child; .ods read back, cross-sheet formulas compared as text",
-        text="Asset B1: every assignment of the years 2019..2022 to {nothing, buy, sell, transfer with fee} that never over-spends, plus every 3-year (thorough: every 4-year) assignment over a 7-item menu (buy+sell, fee-less transfer, a Dec 31 purchase at -05:00 whose UTC year is the next one); x second asset (none or one of 4 fixed patterns incl. one that starts later than B1) x row order (years first seen in / out of order across the IN / OUT / INTRA tables) x language en / kl. Read-back: exactly one '<asset>_<year>' sheet per asset-year with transactions, each of the year's value-carrying transactions once in time order (month, day, client, type, purchase and sale amounts and yen), one '<year>_Summary' per year with one line per asset whose formulas point into that asset-year sheet and at its closing-balance cells, and every opening balance = the closing-balance cells of the same asset's most recent earlier sheet, or 0. The menu includes two transactions at the same instant written in different UTC offsets.",
+        text="Asset B1: every assignment of the years 2019..2022 to {nothing, buy, sell, transfer with fee} that never over-spends, plus every 3-year (thorough: every 4-year) assignment over a 7-item menu (buy+sell, fee-less transfer, a Dec 31 purchase at -05:00 whose UTC year is the next one); x second asset (none or one of 4 fixed patterns incl. one that starts later than B1) x row order (years first seen in / out of order across the IN / OUT / INTRA tables) x language en / kl. Read-back: exactly one '<asset>_<year>' sheet per asset-year with transactions, each of the year's value-carrying transactions once in time order (month, day, client, type, purchase and sale amounts and yen), one '<year>_Summary' per year with one line per asset whose formulas point into that asset-year sheet and at its closing-balance cells, and every opening balance = the closing-balance cells of the same asset's most recent earlier sheet, or 0. The menu includes two transactions at the same instant written in different UTC offsets. The fee-in-yen column is compared too. The data of the 9 inputs bundled with RP2 (up to 4 assets, several years) is read back the same way.",
         note="Cells are located through the sheet's own structure (the purchases formula anchors the balance block), not by recomputing RP2's row arithmetic.",
         design="3/C20",
     ),
     "C14": dict(
         category="exploration",
         technique="exhaustive enumeration of pairs of the 14 taxable kinds over two assets x windows x {US, IE} through spreadsheet -> parse_ods -> compute_tax -> the real tax_report plugin in a forked child; .ods read back",
-        text="For the US and the IE plugin and windows none / from / to: every single kind, every ordered pair (k1 on asset B1, k2 on asset B2) of the 14 taxable kinds (7 income types, DONATE / FEE / GIFT / LOST / SELL / STAKING disposals, fee-bearing transfer), pairs of kinds on one asset six months apart, all 14 kinds on one and on both assets (thorough: triples); every disposal spans a lot older and a lot younger than one year. Read-back: each fraction of the window is on exactly one row of exactly the sheet an independent type -> sheet table names (fee / lost / transfer fee on Investment Expenses), with amount, dates acquired and sold in the plugin's format, proceeds, cost basis, gain, LONG/SHORT, k/n labels and type string as computed; no stray or duplicate rows; sheets without rows absent; Legend = method and filters. The taxable events inside the window are also recomputed from the input rows (own date, both bounds inclusive), incl. a window whose from = to = the day of an event.",
+        text="For the US and the IE plugin and windows none / from / to: every single kind, every ordered pair (k1 on asset B1, k2 on asset B2) of the 14 taxable kinds (7 income types, DONATE / FEE / GIFT / LOST / SELL / STAKING disposals, fee-bearing transfer), pairs of kinds on one asset six months apart, all 14 kinds on one and on both assets (thorough: triples); every disposal spans a lot older and a lot younger than one year. Read-back: each fraction of the window is on exactly one row of exactly the sheet an independent type -> sheet table names (fee / lost / transfer fee on Investment Expenses), with amount, dates acquired and sold in the plugin's format, proceeds, cost basis, gain, LONG/SHORT, k/n labels and type string as computed; no stray or duplicate rows; sheets without rows absent; Legend = method and filters. The taxable events inside the window are also recomputed from the input rows (own date, both bounds inclusive), incl. a window whose from = to = the day of an event. All 14 kinds on both assets are also run under lifo / hifo / lofo (US). The data of the 9 inputs bundled with RP2 (all asset sheets of a file in one run, up to 41 transactions per sheet, 4 exchanges x 2 holders, exchange-supplied fiat values) x methods x 10 date windows is read back the same way.",
         note="Rows are matched to fractions by (asset, event unique id, lot unique id).",
         design="3/C14",
     ),
@@ -129,14 +129,14 @@ CHECKS = {
     "C16": dict(
         category="exploration",
         technique="exhaustive option matrix (entry point x method x language x [accounting_methods] x input shape x date filter) on the real command-line entry points, each run in a fresh forked process",
-        text="Every supported configuration - rp2_us / jp / es / ie / generic x -m absent and every accepted method x -g absent (the country default, incl. rp2_jp's 'ja') and every language with templates x [accounting_methods] absent / one entry (also with a year other than 1970) / several entries - crossed with 12 input shapes (single / multi asset, sparse years, asset fully sold in thirds, income-only asset, transfers with / without fee and spot price across holders, all 14 types, crypto-fee purchase, mixed zones at New Year, an asset starting years after the others, a disposal over 30 lots, equal timestamps) and date filters from {before all, year start / mid-year / year end, the day after a year's last taxable event, the day before an asset's first acquisition, after all} (quick: no filter + 3 rotating filters per pair and all single-bound filters for plain rp2_us, 2 264 runs; thorough: all single-bound filters everywhere, all from <= to pairs for the us / jp defaults). Each run must exit 0, write every report of the country as a readable spreadsheet and nothing else, and log no traceback. Shapes now also include 160 weekly purchases liquidated by two sales (160 fractions for 2 events) and two same-instant disposals of which the first uses up exactly one lot.",
+        text="Every supported configuration - rp2_us / jp / es / ie / generic x -m absent and every accepted method x -g absent (the country default, incl. rp2_jp's 'ja') and every language with templates x [accounting_methods] absent / one entry (also with a year other than 1970) / several entries - crossed with 12 input shapes (single / multi asset, sparse years, asset fully sold in thirds, income-only asset, transfers with / without fee and spot price across holders, all 14 types, crypto-fee purchase, mixed zones at New Year, an asset starting years after the others, a disposal over 30 lots, equal timestamps) and date filters from {before all, year start / mid-year / year end, the day after a year's last taxable event, the day before an asset's first acquisition, after all} (quick: no filter + 3 rotating filters per pair and all single-bound filters for plain rp2_us, 2 264 runs; thorough: all single-bound filters everywhere, all from <= to pairs for the us / jp defaults). Each run must exit 0, write every report of the country as a readable spreadsheet and nothing else, and log no traceback. Shapes now also include 160 weekly purchases liquidated by two sales (160 fractions for 2 events) and two same-instant disposals of which the first uses up exactly one lot. The 9 inputs bundled with RP2 (input/*.ods with their config files, run with -n as RP2's own golden-file tests do) are crossed with rp2_us x every method, the other entry points with default options, and 5 date windows.",
         note="Excluded as unsupported: rp2_jp with -f and -t together (refused by message), schedules that do not cover the input's first year.",
         design="3/C16",
     ),
     "C17": dict(
         category="exploration",
         technique="exhaustive enumeration of row/table permutations, asset subsets, a measured-coverage set of hash seeds and output-directory histories; differential oracle between two executions of the real code",
-        text="(a) for every valid history of the report driver's tree up to depth 3 (2 152 bases) and a 7-row base: every permutation of the rows inside each table x every order of the tables (up to 720 per base) x fifo / hifo through parse_ods + compute_tax - canonical dumps keyed by unique id must be equal; (b) every non-empty subset of 3 assets whose rows share spreadsheet row numbers x fifo / lifo / hifo / lofo through the generator seam with one accounting engine for the run, each asset compared with itself processed alone (ComputedData dump, its In-Out and Tax sheets, its Summary lines, its tax-report rows); (c) the real rp2_us under the PYTHONHASHSEED values needed to observe all 6 / 6 / 2 iteration orders of the asset / exchange / holder sets (plus 6 more; thorough 16) on 3 (4) inputs - content.xml and styles.xml of every report byte-identical; (d) every sequence of <= 2 earlier runs from a 4-item option menu into the same output directory, and the same run twice, vs a run into a fresh directory. The subset runs are repeated with from-dates that hide part / all of some assets' events of a year.",
+        text="(a) for every valid history of the report driver's tree up to depth 3 (2 152 bases) and a 7-row base: every permutation of the rows inside each table x every order of the tables (up to 720 per base) x fifo / hifo through parse_ods + compute_tax - canonical dumps keyed by unique id must be equal; (b) every non-empty subset of 3 assets whose rows share spreadsheet row numbers x fifo / lifo / hifo / lofo through the generator seam with one accounting engine for the run, each asset compared with itself processed alone (ComputedData dump, its In-Out and Tax sheets, its Summary lines, its tax-report rows); (c) the real rp2_us under the PYTHONHASHSEED values needed to observe all 6 / 6 / 2 iteration orders of the asset / exchange / holder sets (plus 6 more; thorough 16) on 3 (4) inputs - content.xml and styles.xml of every report byte-identical; (d) every sequence of <= 2 earlier runs from a 4-item option menu into the same output directory, and the same run twice, vs a run into a fresh directory. The subset runs are repeated with from-dates that hide part / all of some assets' events of a year. Thorough: (a) on the 52 000 histories up to depth 4; (c) 48+ hash seeds on all input shapes; (d) every sequence of <= 3 earlier runs.",
         note="No hand-written expected values. The hash-seed dimension is a finite set with a measured order-coverage criterion, not all 2^32 seeds.",
         design="3/C17",
     ),
